@@ -293,9 +293,24 @@ class Discharger:
             a, b = const_int(m["a"]), const_int(m["b"])
             if a is not None and b is not None:
                 return ("D9", "constant operands")
+            # sums of constants built by macro repetition (`0 + 1 + 1`): every leaf of both operands is a constant
+            def const_val(ap, depth=0):
+                r = ap[0]
+                if r[0] == "const" and isinstance(r[1], int) and not ap[1]:
+                    return r[1]
+                if r[0] == "binop" and depth < 6 and r[1] in ("Add", "AddWithOverflow") and ap[1] in ((), ("0",)):
+                    x, y = const_val(r[2], depth + 1), const_val(r[3], depth + 1)
+                    if x is not None and y is not None:
+                        return x + y
+                return None
+            if op == "Add":
+                va, vb = const_val(fn.apath(m["a"])), const_val(fn.apath(m["b"]))
+                lim = (1 << (INT_BITS.get(m.get("aty"), 0) - 1)) - 1
+                if va is not None and vb is not None and 0 <= va + vb <= lim:
+                    return ("D9", "constant sum %d" % (va + vb))
             if op in ("Div", "Rem") and b is not None and b != -1:
                 return ("D9", "signed overflow of %s needs divisor -1; divisor is the constant %d" % (op, b))
-            if op == "Add" and (b == 1 or a == 1) and INT_BITS.get(m.get("aty"), 0) >= 32:
+            if op == "Add" and (b == 1 or a == 1) and INT_BITS.get(m.get("aty"), 0) >= 32 and self.is_counter(s, m["a"] if b == 1 else m["b"]):
                 return ("D6", "unit increment of a %s counter (fewer than 2^31 iterations per query/file)" % m.get("aty"))
             if op in ("Shl", "Shr") and b is not None and 0 <= b < INT_BITS.get(m.get("aty"), 0):
                 return ("D9", "constant shift %d" % b)
@@ -306,6 +321,40 @@ class Discharger:
             c = const_int(m["b"])
             return self.length_guarded(s, index=True)
         return None
+
+    def is_counter(self, s, opnd):
+        """`x + 1` is a counter increment only when the sum is stored back where x was read from (`x += 1`, `*e += 1`,
+        the macro-expanded `i = i + 1`), or when x is a count of in-memory items (len, count, an enumerate index)."""
+        fn = s.fn
+        pl = place_of(opnd)
+        if pl is None:
+            return False
+        # where did the operand come from: a copy of place P in the same block?
+        srcs = [pl]
+        for st in fn.blocks[s.bb]["stmts"]:
+            if st["k"] == "assign" and st["place"]["l"] == pl["l"] and not st["place"]["p"] and st["rv"].get("k") == "use":
+                q = place_of(st["rv"]["a"])
+                if q is not None:
+                    srcs.append(q)
+        # the checked sum's value half is assigned in the success block
+        def pkey(pl_):
+            return [x["f"] if isinstance(x, dict) and "f" in x else str(x) for x in pl_["p"]]
+        tgt = s.term.get("target")
+        if tgt is not None:
+            for st in fn.blocks[tgt]["stmts"]:
+                if st["k"] == "assign" and st["rv"].get("k") == "use":
+                    q = place_of(st["rv"]["a"])
+                    if q is not None and pkey(q)[-1:] == ["0"]:
+                        d = st["place"]
+                        if any(d["l"] == src["l"] and pkey(d) == pkey(src) for src in srcs):
+                            return True
+        ap = fn.apath(opnd)
+        txt = ap_str(ap)
+        if ap[0][0] == "call" and ap[0][1].split("::")[-1] in ("len", "count", "next_power_of", "size_in_base", "bits"):
+            return True
+        if "Enumerate" in txt and txt.rstrip().endswith(".0"):
+            return True
+        return False
 
     def gated_nonzero(self, s, op):
         return self.gated_nonzero_ap(s, s.fn.apath(op))
